@@ -77,6 +77,13 @@ func (r *round1) Update(msg model.ConsensusMessage) *Error {
 	gid := groupsig.DeserializeID(bh.GroupId)
 	si := cvm.SignInfo
 
+	// only members of the verify group hold a share: the key table is filled from announcements
+	// that anybody can send, so do not rely on it for membership
+	if r.group == nil || !r.group.MemExist(si.GetSignerID()) {
+		r.logger.Errorf("share from a non-member, id: %s. hash: %s, height: %d", si.GetSignerID().GetHexString(), cvm.BlockHash.String(), bh.Height)
+		return nil
+	}
+
 	// get pubKey
 	pk, ok := group_create.GroupCreateProcessor.GetMemberSignPubKey(gid, si.GetSignerID())
 	if !ok {
